@@ -401,15 +401,17 @@ func c09Run(t *testing.T, prop string, rec *ev.Rec, which int) {
 
 func TestC09(t *testing.T) {
 	rec := ev.New("C09", c09Rule)
+	defer func() {
+		if !rec.Flush() {
+			t.Fail()
+		}
+	}()
 	rec.Assume("the catalogue is the one listed in the property; sites are drawn, not enumerated; the .g4 recogniser decides whether an injection is grammar-level")
 	for _, k := range injectionKinds {
 		rec.Require("inject:"+k, 0.03)
 	}
 	rec.Require("site:nested", 0.03)
 	c09Run(t, "C09", rec, 9)
-	if !rec.Flush() {
-		t.Fail()
-	}
 }
 
 func TestReplayC09(t *testing.T) {
